@@ -80,7 +80,7 @@ def run(ctx):
     # textwrap::wrap: output = join("") of extend(wrapper.wrap(find_words(line)))
     tw = fx.body("clap_builder::output::textwrap::wrap")
     ext = tw.calls_to(r"Extend(<[^>]*>)?>?::extend$")
-    res.floor("R20.1", "extend in textwrap::wrap", len(ext), 1)
+    require(fx, res, "R20.1", "textwrap-wrap-source", tw, r"Extend(<[^>]*>)?>?::extend$", len(ext), 1, "textwrap::wrap no longer appends the wrapped words of each line to its output", local_callee=False)
     for c in ext:
         e = expr(tw, c.args[1])
         res.check(re.fullmatch(r"wrap\(.*,collect\(find_words_ascii_space\(.*split_inclusive\(content,(10|'\\n')\).*\)\)\)", e) is not None, "R20.1", "textwrap-wrap-source", c.where(),
@@ -90,7 +90,7 @@ def run(ctx):
     # StyledStr::wrap
     sw = fx.body("clap_builder::builder::styled_str::StyledStr::wrap")
     pushes = sw.calls_to(r"String::push_str$")
-    res.floor("R20.1", "push_str in StyledStr::wrap", len(pushes), 2)
+    require(fx, res, "R20.1", "styled-wrap-verbatim|count", sw, r"String::push_str$", len(pushes), 2, "StyledStr::wrap no longer copies both the styling bytes between text runs and the tail verbatim", local_callee=False)
     for c in pushes:
         e = expr(sw, c.args[1])
         res.check(re.match(r"^index\(as_str\(self\.0\),Range(From)?::Range(From)?\(", e) is not None, "R20.1", "styled-wrap-verbatim|" + ("range" if "Range::Range" in e else "tail"), c.where(),
@@ -100,7 +100,7 @@ def run(ctx):
         e = expr(sw, c.args[1])
         res.check(re.match(r"^wrap\(.*collect\(find_words_ascii_space\(", e) is not None, "R20.1", "styled-wrap-words", c.where(), "new.extend(wrapper.wrap(find_words(line)))",
                   "StyledStr::wrap extends the output with %s" % e[:120])
-    res.floor("R20.1", "extend in StyledStr::wrap", len(exs), 1)
+    require(fx, res, "R20.1", "styled-wrap-words", sw, r"Extend(<[^>]*>)?>?::extend$", len(exs), 1, "StyledStr::wrap no longer appends the wrapped words to its output", local_callee=False)
     res.check(not sw.calls_to(r"String::(remove|truncate|clear|drain|pop|retain|replace_range)$"), "R20.1", "styled-wrap-no-removal", sw.where(), "no destructive String op", "StyledStr::wrap removes text from its output buffer")
 
     # ---- R20.5 break placement and width accounting (necessary for the width bound / for breaking only between words)
@@ -162,7 +162,8 @@ def run(ctx):
     sets = [(i, s) for i, j, s in dw.stmts() if s["k"] == "assign" and s["place"] in cs and s["rv"]["k"] == "use" and op_int(s["rv"]["op"]) is not None]
     on = [i for i, s in sets if op_int(s["rv"]["op"]) == 1 and i != 0]
     off = [i for i, s in sets if op_int(s["rv"]["op"]) == 0 and not dw.block_dominates(i, dw.calls()[0].bb)]
-    ok_on = bool(on) and all(has_bool(dw, i, "T", r"^is_ascii_control\(") for i in on)
+    nonloop = lambda i: [g for g in guard_strs(dw, i) if not re.match(r"^V\d+:next\(", g)]
+    ok_on = bool(on) and all(len(nonloop(i)) == 1 and re.match(r"^T:is_ascii_control\(next\(", nonloop(i)[0]) for i in on)
     ok_off = bool(off) and all(any(p == "T" and re.search(r"^Eq\(.*,'?m'?\)|^eq\(", e) or p == "T" and "109" in e for p, e in bool_facts(dw, i)) for i in off)
     res.check(ok_on, "R20.4", "control-on", dw.where(), "control_sequence := true only on is_ascii_control()", "display_width enters escape-sequence mode under a different condition")
     res.check(ok_off, "R20.4", "control-off", dw.where(), "control_sequence := false only on the terminating 'm'", "display_width leaves escape-sequence mode under a different condition: %s" % [bool_facts(dw, i) for i in off])
